@@ -279,9 +279,12 @@ class FakeSnowflakeCursor:
                 self._conn.schema = set_schema
                 self._conn.schema_set = True
 
+            result_sql = SQL_SUCCESS
+
         elif set_schema := transformed.args.get("set_schema"):
             self._conn.schema = set_schema
             self._conn.schema_set = True
+            result_sql = SQL_SUCCESS
 
         elif create_db_name := transformed.args.get("create_db_name"):
             # we created a new database, so create the info schema extensions and macros
@@ -300,6 +303,10 @@ class FakeSnowflakeCursor:
         elif cmd == "DELETE":
             (affected_count,) = self._duck_conn.fetchall()[0]
             result_sql = SQL_DELETED_ROWS.substitute(count=affected_count)
+
+        elif cmd in ("TRANSACTION", "COMMIT", "ROLLBACK", "TRUNCATETABLE"):
+            # no result set in duckdb; snowflake returns the success status
+            result_sql = SQL_SUCCESS
 
         elif cmd in ("DESCRIBE TABLE", "DESCRIBE VIEW"):
             # DESCRIBE TABLE/VIEW has already been run above to detect and error if the table exists
